@@ -100,20 +100,15 @@ def _parse_string(s):
     test = float(s) * factor
 
     s_float, exp, s_exp = s.partition("e")
-    s_count, sep, s_frac = s_float.rpartition(".")
+    s_count, sep, s_frac = s_float.partition(".")
     if exp:
         exponent = int(s_exp)
         if exponent < 0:
-            n = min(len(s_count), -exponent)
-            s_frac = s_count[-n:] + s_frac
-            s_count = s_count[:-n]
-            exponent += n
+            s_frac = "0" * max(0, -exponent - len(s_count)) + s_count[max(0, len(s_count) + exponent):] + s_frac
+            s_count = s_count[:max(0, len(s_count) + exponent)]
         elif exponent > 0:
-            n = min(len(s_frac), exponent)
-            s_count = s_count + s_frac[:n]
-            s_frac = s_frac[n:]
-            exponent -= n
-        factor *= 10 ** exponent
+            s_count = s_count + s_frac[:exponent] + "0" * max(0, exponent - len(s_frac))
+            s_frac = s_frac[exponent:]
 
     frac = float("0." + s_frac) * factor
     count = float("0" + s_count) * factor
